@@ -36,6 +36,9 @@ type c08Case struct {
 	// AliasPub (v5 publisher): the publish under test travels alias-only, on an alias that was first bound to another
 	// topic and then re-bound to the topic of the test
 	AliasPub bool `json:"aliaspub,omitempty"`
+	// Resumed: the subscriber's session was created by a client of the OTHER protocol version and is resumed (no
+	// clean start) by the connection under test - what is forwarded follows the version of the current connection
+	Resumed bool `json:"resumed,omitempty"`
 }
 
 type c08Copy struct {
@@ -81,6 +84,7 @@ func (p *c08Prop) Gen(r *Rng, i int, tier string) interface{} {
 	}
 	c.Overlap = r.Chance(40)
 	c.Self = r.Chance(30)
+	c.Resumed = r.Chance(15)
 	c.AliasPub = c.PV == 5 && r.Chance(35)
 	n := 1 + r.Intn(3)
 	perm := []int{0, 1, 2, 3, 4}
@@ -164,7 +168,32 @@ func (p *c08Prop) Run(ci interface{}) interface{} {
 	if c.Kind == "retained" && c.SV == 5 {
 		aliasMax = 5 // makes the writer add a Topic Alias property to the (single) retained copy
 	}
-	if _, err := sc.Connect(ConnectOpts{ID: "S", Ver: sv, Clean: true, AliasMax: aliasMax}); err != nil {
+	forever := uint32(0xFFFFFFFF)
+	if c.Resumed {
+		other := mqttp.ProtocolV50
+		if sv == mqttp.ProtocolV50 {
+			other = mqttp.ProtocolV311
+		}
+		oc := b.Dial()
+		if _, err := oc.Connect(ConnectOpts{ID: "S", Ver: other, Clean: false, Expiry: &forever}); err != nil {
+			obs.Err = "S (earlier connection): " + err.Error()
+			return obs
+		}
+		// it leaves a subscription behind: the session's subscriber object is kept
+		oa := oc.Auto(false)
+		_ = oa.SendL(mkSubscribe(other, 1, []string{"zz/old"}, []byte{1}))
+		if !oa.WaitFor(5*time.Second, func() bool { return len(oa.Others) >= 1 }) {
+			obs.Err = "S (earlier connection): no suback"
+			return obs
+		}
+		before := b.Met.Disconnected()
+		oc.Close()
+		deadline := time.Now().Add(5 * time.Second)
+		for b.Met.Disconnected() == before && time.Now().Before(deadline) {
+			time.Sleep(time.Millisecond)
+		}
+	}
+	if _, err := sc.Connect(ConnectOpts{ID: "S", Ver: sv, Clean: !c.Resumed, AliasMax: aliasMax, Expiry: &forever}); err != nil {
 		obs.Err = "S: " + err.Error()
 		return obs
 	}
